@@ -82,6 +82,15 @@ def extra_scenarios(tier):
                 for sort in (SORTS if thorough else ("fcfs", "llf")):
                     for unint in (False, True):
                         yield {"net": netname, "sessions": ss, "sched": {"kind": algo, "sort": sort, "est": "ramp0", "unint": unint, "inc": 1}, "period": 5}
+    # (1b) a user-written estimator that bounds some sessions ABOVE the EVSE maximum and leaves the others unbounded
+    for netname in ("N2", "N5"):
+        stations = list(S.NETS[netname]["stations"])
+        pool = [sess(st, a, 3, kind, i) for i, (st, a, kind) in enumerate(itertools.product(stations, (0, 1), ("fast", "small")))]
+        for ss in S.session_subsets(pool, 1, 2):
+            for algo in ("greedy", "rr"):
+                for sort in (SORTS if thorough else ("fcfs", "lrpt")):
+                    for unint in (False, True):
+                        yield {"net": netname, "sessions": ss, "sched": {"kind": algo, "sort": sort, "est": "loose", "unint": unint, "inc": 1}, "period": 5}
     # (2)
     stations = list(S.NETS["N9"]["stations"])
     pool = [sess(st, a, 3, kind, i) for i, (st, a, kind) in enumerate(itertools.product(stations, (0, 1), ("fast", "small")))]
